@@ -4,6 +4,7 @@ CONSTANTS
   MaxOuts = 2
   MaxThreshold = 3
   MaxWorkers = 2
+  Runners = 1
   FinalFlush = TRUE
   KeyWithBlock = TRUE
 INVARIANTS CollectExact SentOnce SendersOk
